@@ -150,6 +150,14 @@ func main() {
 					fmt.Printf("%s %s %s DEAD\n", p.Pos(c.Pos()), funcName(fn), name)
 				}
 			})
+		case "errnilret":
+			all := map[string]bool{}
+			for _, k := range analysedPkgs {
+				all[k] = true
+			}
+			errNilRetSites(p, all, func(fn *ssa.Function, iff *ssa.If, ret *ssa.Return, name string) {
+				fmt.Printf("%s %s error of %s -> return nil at %s\n", p.Pos(iff.Cond.Pos()), funcName(fn), name, p.Pos(ret.Pos()))
+			})
 		case "globals":
 			globalWrites(p, func(fn *ssa.Function, ins ssa.Instruction, g *ssa.Global) {
 				fmt.Printf("%s %s writes %s\n", p.Pos(ins.Pos()), funcName(fn), g.Name())
